@@ -111,8 +111,8 @@ func pathsToFrom(pred, from, to *ssa.BasicBlock, visit func(p pathAtoms) bool) (
 		defer func() { blocks = blocks[:len(blocks)-1] }()
 		// bind phis
 		var saved []struct {
-			p *ssa.Phi
-			v ssa.Value
+			p   *ssa.Phi
+			v   ssa.Value
 			had bool
 		}
 		if from != nil {
@@ -138,8 +138,8 @@ func pathsToFrom(pred, from, to *ssa.BasicBlock, visit func(p pathAtoms) bool) (
 			for i, ph := range phis {
 				old, had := env[ph]
 				saved = append(saved, struct {
-					p *ssa.Phi
-					v ssa.Value
+					p   *ssa.Phi
+					v   ssa.Value
 					had bool
 				}{ph, old, had})
 				env[ph] = vals[i]
